@@ -207,6 +207,10 @@ func build(o *getoptions.GetOpt, c *CmdDef, path string, ran *string, nodes *[]n
 			if callLog != nil {
 				fmt.Fprintf(callLog, "[argfn %s#%d target=%s prev=%q partial=%q]", p, k, target, prev, partial)
 			}
+			if c.ArgCompPanic && k == c.ArgCompFns-1 {
+				var m map[string]int
+				m[partial] = 1 // the program's own bug: assignment to entry in nil map
+			}
 			return []string{"fnarg-" + fmt.Sprint(k), "fnarg-common", "apple"}
 		})
 	}
@@ -386,6 +390,10 @@ func observeArgv(sc *Scenario, ord Order, st *obsStats, shared []string) (out st
 			}
 			func() {
 				defer func() {
+					// a panic (the library's, or a callback of the program) ends this request only
+					if p := recover(); p != nil {
+						fmt.Fprintf(pb, "%s.PANIC %v\n", mode, p)
+					}
 					if devnull != nil {
 						devnull.Close()
 					}
@@ -471,6 +479,29 @@ func observeArgv(sc *Scenario, ord Order, st *obsStats, shared []string) (out st
 					for _, n := range nodes {
 						if sv := sharedVars[n.opt]; sv != nil {
 							fmt.Fprintf(pb, "shared-vars %s=%q\n", n.path, sv[1:])
+						}
+					}
+					// the results belong to the program: it may go on and edit them in place
+					for _, n := range nodes {
+						for _, d := range append(append([]OptDef(nil), n.def.Opts...), n.def.LateOpts...) {
+							switch v := n.opt.Value(d.Name).(type) {
+							case []int:
+								for i := range v {
+									v[i] = -7000 - i
+								}
+							case []string:
+								for i := range v {
+									v[i] = "edited by the program"
+								}
+							case []float64:
+								for i := range v {
+									v[i] = -0.5
+								}
+							case map[string]string:
+								for k := range v {
+									v[k] = "edited by the program"
+								}
+							}
 						}
 					}
 					if err == nil {
@@ -608,6 +639,124 @@ type disagreement struct {
 	kind string // order | repeat
 }
 
+// twinCore is the part of an observation that a concurrent twin execution must reproduce: what Parse
+// returned and the option values (no output streams: the twins share getoptions.Writer).
+func twinCore(obs string) string {
+	var out []string
+	for _, l := range strings.Split(obs, "\n") {
+		if strings.HasPrefix(l, "parse.remaining=") || strings.HasPrefix(l, "parse.error=") || strings.HasPrefix(l, "value ") || strings.HasPrefix(l, "shared-vars ") {
+			out = append(out, l)
+		}
+	}
+	return strings.Join(out, "\n")
+}
+
+// observeTwin: two goroutines of one program each build the definition for themselves and parse the
+// same arguments at the same time (two requests served concurrently by one process). The objects are
+// independent, so each must see exactly what a lone execution sees; only package-level state in the
+// library can make them differ. Map ranges and sort comparisons are preemption points here.
+func observeTwin(sc *Scenario, ord Order) [2]string {
+	pol := simrt.Policy{Kind: "uniform", MapMode: ord.Base}
+	if ord.Seed%2 == 1 {
+		pol.Kind, pol.Sticky = "sticky", 0.8
+	}
+	ch := simrt.NewRandomChooser(ord.Seed^0x7e1f, pol, false)
+	base := ord.Base
+	if base == "shuffle" {
+		base = "asc"
+	}
+	var outs [2]strings.Builder
+	simrt.Run(simrt.Config{Chooser: ch, MapBase: base, KeepGlobals: true, YieldOnMap: true}, func() {
+		for _, kv := range sc.Env {
+			os.Setenv(kv[0], kv[1])
+		}
+		os.Unsetenv("COMP_LINE")
+		os.Unsetenv("ZSHELL")
+		defer func() {
+			for _, kv := range sc.Env {
+				os.Unsetenv(kv[0])
+			}
+		}()
+		var w bytes.Buffer
+		oldW := getoptions.Writer
+		getoptions.Writer = &w
+		oldExit := getoptions.VerifSetExit(func(int) {})
+		descStyle = sc.DescStyle
+		sharedVars = map[*getoptions.GetOpt]*[3]string{}
+		var calls strings.Builder
+		callLog = &calls
+		defer func() {
+			getoptions.Writer = oldW
+			getoptions.VerifSetExit(oldExit)
+			sharedVars, callLog = nil, nil
+		}()
+		done := simrt.Make[int](2)
+		for t := 0; t < 2; t++ {
+			t := t
+			simrt.GoNamed(fmt.Sprintf("twin%d", t), func() {
+				pb := &outs[t]
+				defer func() {
+					if p := recover(); p != nil {
+						fmt.Fprintf(pb, "PANIC %v\n", p)
+					}
+					simrt.Send(done, t)
+				}()
+				opt := getoptions.New()
+				if sc.SelfEmpty {
+					opt.Self("", "a program")
+				} else {
+					opt.Self("prog", "a program")
+				}
+				opt.SetMode(getoptions.Mode(sc.Mode))
+				opt.SetUnknownMode(getoptions.UnknownMode(sc.Unknown))
+				if sc.Lower {
+					opt.SetMapKeysToLower()
+				}
+				ran := ""
+				var nodes []node
+				build(opt, &sc.Root, "prog", &ran, &nodes)
+				if sc.Help {
+					hn := "help"
+					if sc.HelpName != "" {
+						hn = sc.HelpName
+					}
+					if sc.HelpAlias {
+						opt.HelpCommand(hn, opt.Alias("?"))
+					} else {
+						opt.HelpCommand(hn)
+					}
+				}
+				rem, err := opt.Parse(append([]string(nil), sc.Argv...))
+				fmt.Fprintf(pb, "parse.remaining=%q\nparse.error=%s\n", rem, errClass(err))
+				for _, n := range nodes {
+					for _, d := range append(append([]OptDef(nil), n.def.Opts...), n.def.LateOpts...) {
+						fmt.Fprintf(pb, "value %s --%s=%s called=%v as=%q\n", n.path, d.Name, showValue(n.opt.Value(d.Name)), n.opt.Called(d.Name), n.opt.CalledAs(d.Name))
+					}
+				}
+				for _, n := range nodes {
+					if sv := sharedVars[n.opt]; sv != nil {
+						fmt.Fprintf(pb, "shared-vars %s=%q\n", n.path, sv[1:])
+					}
+				}
+			})
+		}
+		simrt.Recv(done)
+		simrt.Recv(done)
+	})
+	return [2]string{outs[0].String(), outs[1].String()}
+}
+
+// twinDiff: first difference between a lone execution and either of two concurrent ones ("" if none).
+func twinDiff(sc *Scenario, o Order, base string) string {
+	want := twinCore(base)
+	for t, got := range observeTwin(sc, o) {
+		if got = twinCore(got); got != want {
+			return fmt.Sprintf("two goroutines of one process parse the same arguments on objects of their own at the same time; goroutine %d sees something else than a lone execution: %s", t, firstDiff(want, got))
+		}
+	}
+	return ""
+}
+
 // check runs the scenario under k orders plus a repetition and returns the first disagreement.
 func check(sc *Scenario, seed uint64, k int, st *obsStats, nexec *int) *disagreement {
 	os := orders(seed, k)
@@ -637,6 +786,13 @@ func check(sc *Scenario, seed uint64, k int, st *obsStats, nexec *int) *disagree
 		*nexec++
 		if got != base {
 			return &disagreement{os[0], o, firstDiff(base, got), "order"}
+		}
+	}
+	// two concurrent executions on independent objects
+	for _, o := range os[:2] {
+		*nexec += 2
+		if l := twinDiff(sc, o, base); l != "" {
+			return &disagreement{o, o, l, "twin"}
 		}
 	}
 	// what Help() returns must not depend on where warnings would be written to
@@ -783,6 +939,12 @@ func differs(sc *Scenario, d *disagreement, seed uint64) *disagreement {
 		}
 		return nil
 	}
+	if d.kind == "twin" {
+		if l := twinDiff(sc, d.a, observe(sc, d.a, nil)); l != "" {
+			return &disagreement{d.a, d.a, l, "twin"}
+		}
+		return nil
+	}
 	if d.kind == "repeat" {
 		callerArgv := append(make([]string, 0, len(sc.Argv)+4), sc.Argv...)
 		a := observeArgv(sc, d.a, nil, callerArgv)
@@ -907,6 +1069,11 @@ func shrinkCmd(c *CmdDef, emit func()) {
 		c.ArgComp = nil
 		emit()
 		c.ArgComp = s
+	}
+	if c.ArgCompPanic {
+		c.ArgCompPanic = false
+		emit()
+		c.ArgCompPanic = true
 	}
 	if c.ArgCompFns != 0 {
 		s := c.ArgCompFns
@@ -1241,6 +1408,10 @@ func main() {
 			if md.kind == "idempotence" {
 				rf.Message = "the same definition object gives a different text when asked twice: " + md.diff
 			}
+			if md.kind == "twin" {
+				rf.Oracle = "O20-twin"
+				rf.Message = "same definition and input, different result when another goroutine of the process parses at the same time (hidden package-level state): " + md.diff
+			}
 			// a replay file must reproduce in a FRESH process from the file alone
 			path := filepath.Join(*replayDir, fmt.Sprintf("C20-%d-%d.json", *seed, idx))
 			os.MkdirAll(*replayDir, 0o755)
@@ -1321,6 +1492,9 @@ func differsExact(rf *ReplayFile) string {
 	}
 	if rf.Kind == "idempotence" {
 		return idempotenceLine(rf.Scenario, rf.OrderA)
+	}
+	if rf.Kind == "twin" {
+		return twinDiff(rf.Scenario, rf.OrderA, observe(rf.Scenario, rf.OrderA, nil))
 	}
 	callerArgv := append(make([]string, 0, len(rf.Scenario.Argv)+4), rf.Scenario.Argv...)
 	if rf.Kind != "repeat" {
